@@ -19,7 +19,7 @@ pub fn closure_case(ctx: &mut Ctx, samples: &[Val], o: &TOpts, label: &str) {
             let accepted = crate::coqfmt::guarded(|| serde_arrow::to_marrow(&fields, samples).map(|_| ()).map_err(|e| e.to_string()));
             let mut failure = None;
             if let Out::Err(e) = &accepted {
-                let class = if e.contains("serialize_unit/serialize_none is not supported") && e.contains("Union(..)") { "excluded_null_for_enum" } else if o.guess_dates && e.contains("arse") { "excluded_guess_dates" } else if o.coerce && e.contains("out of range") { "excluded_u64_above_i64" } else if o.to_string && o.dict && e.contains("Dictionary") { "to_string_with_dictionary" } else { "traced_schema_rejects_samples" };
+                let class = if e.contains("Cannot serialize enum with data as string") && samples.iter().any(has_unit_payload_variant) { "unit_payload_variant_traced_as_string" } else if e.contains("serialize_unit/serialize_none is not supported") && e.contains("Union(..)") { "excluded_null_for_enum" } else if o.guess_dates && e.contains("arse") { "excluded_guess_dates" } else if o.coerce && e.contains("out of range") { "excluded_u64_above_i64" } else if o.to_string && o.dict && e.contains("Dictionary") { "to_string_with_dictionary" } else { "traced_schema_rejects_samples" };
                 ctx.count(&format!("closure_failure:{}", class));
                 if class.starts_with("excluded") { ctx.add_eval(&format!("{:?}{:?}", o, samples), false); return; }
                 failure = Some((class, format!("options {:?}: the traced schema rejects its own samples: {}", o, e)));
@@ -30,6 +30,18 @@ pub fn closure_case(ctx: &mut Ctx, samples: &[Val], o: &TOpts, label: &str) {
         }
         Out::Err(_) => { ctx.count(&format!("{}:not_traced", label)); ctx.add_eval(&format!("{:?}{:?}", o, samples), false); }
         Out::Panic(p) => { ctx.count(&format!("{}:panic", label)); let idx = ser_case(ctx, &[], &[], label, None); ctx.fail(idx, "panic", format!("from_samples panics: {} on {:?}", p, samples)); }
+    }
+}
+
+/// a data-carrying enum variant whose payload is the unit value: `enum E { A, B(()) }`, B(())
+fn has_unit_payload_variant(v: &Val) -> bool {
+    match v {
+        Val::NewtypeVariant(_, _, p) => matches!(**p, Val::Unit | Val::UnitStruct) || has_unit_payload_variant(p),
+        Val::Some(x) | Val::Newtype(x) => has_unit_payload_variant(x),
+        Val::Seq(l) | Val::Tuple(l) | Val::TupleStruct(l) | Val::TupleVariant(_, _, l) => l.iter().any(has_unit_payload_variant),
+        Val::Struct(fs, _) | Val::StructVariant(_, _, fs) => fs.iter().any(|(_, x)| has_unit_payload_variant(x)),
+        Val::Map(kvs) => kvs.iter().any(|(k, x)| has_unit_payload_variant(k) || has_unit_payload_variant(x)),
+        _ => false,
     }
 }
 
@@ -73,6 +85,19 @@ pub fn run(ctx: &mut Ctx) {
             let samples = vec![Val::Struct(vec![("p".into(), a)], 0), Val::Struct(vec![("p".into(), b2)], 0)];
             for b in [0u32, 1, 4, 128, 511] { closure_case(ctx, &samples, &TOpts::from_bits(b), "null_marker_next_to_value"); }
         } } }
+    }
+    // directed family: enum variants whose payload was only ever a null marker, next to unit variants, under all option sets
+    {
+        let nv = |i: u32, v: Val| Val::NewtypeVariant(i, format!("V{}", i), Box::new(v));
+        let rec = |v: Val| Val::Struct(vec![("e".into(), v)], 0);
+        let families: Vec<Vec<Val>> = vec![
+            vec![rec(nv(0, Val::None))],
+            vec![rec(nv(0, Val::None)), rec(Val::UnitVariant(1, "V1".into()))],
+            vec![rec(Val::UnitVariant(0, "V0".into())), rec(nv(1, Val::Unit))],
+            vec![rec(nv(0, Val::None)), rec(nv(0, Val::Some(Box::new(Val::Int(crate::arrgen::IK::I32, 1)))))],
+            vec![rec(Val::TupleVariant(0, "V0".into(), vec![])), rec(Val::UnitVariant(1, "V1".into()))],
+        ];
+        for fam in &families { for b in 0..512u32 { closure_case(ctx, fam, &TOpts::from_bits(b), "enum_payload_always_null"); } }
     }
     // all 2^9 option sets on a fixed family
     let fam = if ctx.thorough { 40 } else { 6 };
